@@ -935,6 +935,37 @@ def showTupItems : List Val → List Item
   | v :: w :: r => .enter :: (showVal v ++ .leave :: .call .lit 2 [44, 32] :: showTupItems (w :: r))
 end
 
+/-! ### `show_to(s, s, pos)`: String_Show into the String it shows (known finding KF-C16-alias-operand, site String_Show)
+
+  `pos = print_to(out, pos, "\""); char* v = s->val; while (*v) { pos = print_to(out, pos, <escape | "%c">, …); v++; }
+   return print_to(out, pos, "\"");` — with `out == self` the cursor `v` walks the very block that every `print_to`
+  reallocates: once a `realloc` has moved it, `*v` reads freed memory; as long as none does, the text grows at least as
+  fast as `v` advances and the walk never reaches a terminator. -/
+
+/-- the walk: `i` = number of the `print_to` about to be made (for the allocator's choice `mv i`), `voff` = offset of `v` in the
+    block it was taken from, `stale` = that block has been freed since; `none` = out of fuel, still walking -/
+def showSelfLoop (P : Params) (J : Nat → Byte) (mv : Nat → Bool) :
+    Nat → Nat → Str → Nat → Nat → Bool → List Acc → Option Res
+  | 0, _, _, _, _, _, _ => none
+  | fuel + 1, i, s, pos, voff, stale, lg =>
+    if stale then some { st := s, out := .ub .useAfterFree, log := lg }            -- `*v`: the block `v` points into was freed
+    else
+      match s.buf[voff]? with
+      | none => some { st := s, out := .ub .outOfBounds, log := lg }
+      | some b =>
+        if b == 0 then                                                              -- the walk is over: the closing quote
+          let r := formatTo P J s pos [34]
+          some { st := r.st, out := .ok (pos + 1), log := lg ++ [.rd voff 1 s.buf.length] ++ r.log }
+        else
+          let t := (showChar b).text
+          let r := formatTo P J s pos t                                             -- reallocates the block `v` points into
+          showSelfLoop P J mv fuel (i + 1) r.st (pos + t.length) (voff + 1) (mv i) (lg ++ [.rd voff 1 s.buf.length] ++ r.log)
+
+/-- `show_to(s, s, pos)`: the opening quote is printed first (the text is already cut at `pos` when `v` is taken) -/
+def showSelf (P : Params) (J : Nat → Byte) (mv : Nat → Bool) (fuel : Nat) (s : Str) (pos : Nat) : Option Res :=
+  let r0 := formatTo P J s pos [34]
+  showSelfLoop P J mv fuel 1 r0.st (pos + 1) 0 false r0.log
+
 /-- flags, width, precision and `l` of a specification (the part of the printf grammar the correspondence renders) -/
 structure SpecF where
   left : Bool := false
